@@ -1,6 +1,7 @@
 #!/bin/sh
 # Re-check every design-phase spike in a scratch copy (nothing is written next to the sources).
 set -e
+cd "$(dirname "$0")"
 d=$(mktemp -d)
 cp coq/*.v "$d"/
 cd "$d"
